@@ -43,6 +43,17 @@ PROPS = {
                        "equivalence and nothing else changes it, root_ is an idempotent representative inside the class and the identity on "
                        "unallocated ids; the real unification.rs is interpreted from an arbitrary forest (and decided again by Kani in the thorough tier)",
     },
+    "C06": {
+        "classes": r"^(step|prologue)\.(noalloc|progress|dirty-exact)",
+        "lemmas": lambda n: n == "step" or n == "prologue",
+        "witness": "noalloc",
+        "only_surjective": True,
+        "explanation": "bounded inductive verification for the corpus programs without `!`: from every state satisfying the loop-head "
+                       "invariant, one arbitrary iteration of the generated close_until (and its prologue) allocates no element and creates "
+                       "no class, is_dirty() is exact, and an iteration that goes round the loop again strictly decreases the lexicographic "
+                       "measure (set of roots, set of tuples not yet in the old tables, empty-join flag) -- hence close() terminates within "
+                       "(U+1) * (sum of U^arity + 1) * 2 iterations on every model with at most U elements per type",
+    },
     "C07": {
         "classes": r"^step\.(early|contract)",
         "lemmas": lambda n: n == "step" or n == "prologue",
@@ -82,6 +93,8 @@ def main():
     schemas = {}
     for name, pinfo in sorted(corpus.programs.items()):
         su = corpus.setup(name, 2)
+        if cfg.get("only_surjective") and L.has_defs(su.rules):
+            continue
         ctx, I, sch = su.fresh()
         schemas[name] = (su, sch)
         for U in tier_universes(tier, name, corpus):
@@ -172,9 +185,9 @@ def main():
     cov = {
         "explanation": cfg["explanation"] + ". Deciding step: SAT (kissat) on the Tseitin CNF of the predicated symbolic execution "
                        "of the generated Rust (parsed with syn on every run); z3 re-decides via SMT-LIB2 when VERIF_SOLVER=z3.",
-        "programs": len(corpus.programs),
-        "program_names": sorted(corpus.programs),
-        "program_hashes": {n: p["rs_sha"] for n, p in corpus.programs.items()},
+        "programs": len(schemas),
+        "program_names": sorted(schemas),
+        "program_hashes": {n: p["rs_sha"] for n, p in corpus.programs.items() if n in schemas},
         "obligations": sum(r.get("goals", 0) for r in results),
         "lemma_tasks": len(results),
         "lemma_tasks_proved": len(proved),
@@ -224,7 +237,7 @@ def main():
         for name, s, d in val_bad[:5]:
             print("INCONCLUSIVE: translator validation mismatch in %s: %s (script %s)" % (name, d, s))
         sys.exit(2)
-    print("OK property=%s tier=%s programs=%d lemma tasks=%d obligations=%d wall=%.0fs" % (prop, tier, len(corpus.programs), len(results), cov["obligations"], wall))
+    print("OK property=%s tier=%s programs=%d lemma tasks=%d obligations=%d wall=%.0fs" % (prop, tier, len(schemas), len(results), cov["obligations"], wall))
     sys.exit(0)
 
 
